@@ -180,6 +180,11 @@ func (dw *DiskWriter) HandleChange(kind ChangeKind, p string, fi os.FileInfo, er
 			return errors.Wrapf(err, "failed to symlink %s", newPath)
 		}
 	case statCopy.Linkname != "":
+		// the new name gets its metadata applied by path: it must not become a symlink
+		// (link(2) does not follow one left behind at the source of the link)
+		if lfi, err := os.Lstat(filepath.Join(dw.dest, statCopy.Linkname)); err == nil && lfi.Mode()&os.ModeSymlink != 0 {
+			return errors.Errorf("invalid hard link %s to symlink %s", p, statCopy.Linkname)
+		}
 		if err := os.Link(filepath.Join(dw.dest, statCopy.Linkname), newPath); err != nil {
 			return errors.Wrapf(err, "failed to link %s to %s", newPath, statCopy.Linkname)
 		}
